@@ -102,6 +102,9 @@ func parseFloat(s string) float64 {
 	if i := strings.Index(s, "p"); i > 0 {
 		m, _ := strconv.ParseInt(s[:i], 10, 64)
 		e, _ := strconv.Atoi(s[i+1:])
+		if m == 0 && strings.HasPrefix(s, "-") {
+			return math.Copysign(0, -1)
+		}
 		return math.Ldexp(float64(m), e)
 	}
 	switch s {
